@@ -417,8 +417,63 @@ class Program:
         self.functions: Dict[str, FuncInfo] = {}
         self._subclasses: Dict[str, Set[str]] = {}
         self._load()
+        self._positionalise_calls()
+        self._collapse_forwarders()
         self._expand_wrapping_decorators()
         self._collapse_forwarders()
+
+    # ------------------------------------------------------ keyword calls
+    def _positionalise_calls(self):
+        """f(a, y=b) -> f(a, b) in the syntax trees of the model, for calls whose callee name denotes package functions
+        that all share one positional signature and whose keywords are parameter names of it: the rules that read the
+        syntax tree (and the evaluator) then see one spelling of a call.  Only keywords that continue the positional
+        prefix are moved.  The source files are not touched; this is a normal form of the model."""
+        table: Dict[str, Optional[List[str]]] = {}
+
+        def note(fi: FuncInfo):
+            if isinstance(fi.node, ast.Lambda):
+                return
+            names = [q.name for q in fi.params if q.kind == "pos"]
+            if names and names[0] in ("self", "cls") and fi.cls is not None and not fi.is_staticmethod:
+                names = names[1:]
+            if any(q.kind in ("vararg", "kwarg") for q in fi.params):
+                names = None
+            if fi.name in table and table[fi.name] != names:
+                table[fi.name] = None
+            else:
+                table.setdefault(fi.name, names)
+        for fi in self.functions.values():
+            note(fi)
+        for ci in self.classes.values():
+            for fi in ci.methods.values():
+                note(fi)
+            if ci.is_dataclass:
+                try:
+                    fields = [f.name for f in self.dataclass_fields(ci.qualname)]
+                except Exception:
+                    fields = None
+                if ci.name in table and table[ci.name] != fields:
+                    table[ci.name] = None
+                else:
+                    table.setdefault(ci.name, fields)
+        for mod in self.modules.values():
+            for n in ast.walk(mod.tree):
+                if not isinstance(n, ast.Call) or not n.keywords or any(k.arg is None for k in n.keywords) or \
+                        any(isinstance(a, ast.Starred) for a in n.args):
+                    continue
+                nm = n.func.id if isinstance(n.func, ast.Name) else (n.func.attr if isinstance(n.func, ast.Attribute) else None)
+                sig = table.get(nm) if nm else None
+                if not sig or not all(k.arg in sig for k in n.keywords):
+                    continue
+                kwd = {k.arg: k.value for k in n.keywords}
+                i = len(n.args)
+                moved = False
+                while i < len(sig) and sig[i] in kwd:
+                    n.args.append(kwd.pop(sig[i]))
+                    i += 1
+                    moved = True
+                if moved:
+                    n.keywords = [k for k in n.keywords if k.arg in kwd]
 
     # ------------------------------------------------------ wrapping decorators
     def _expand_wrapping_decorators(self):
@@ -444,7 +499,8 @@ class Program:
             D = self.functions.get(r[1])
             if D is None or D.cls is not None or len(D.params) != 1 or D.params[0].kind != "pos":
                 return None
-            body = D.real_body()
+            body = [st_ for st_ in D.real_body() if not isinstance(st_, ast.Pass) and not (
+                isinstance(st_, ast.Expr) and isinstance(st_.value, ast.Constant))]
             if len(body) != 2 or not isinstance(body[0], ast.FunctionDef) or not isinstance(body[1], ast.Return) or \
                     not isinstance(body[1].value, ast.Name) or body[1].value.id != body[0].name:
                 return None
@@ -580,7 +636,7 @@ class Program:
                     continue
                 own = [p_.name for p_ in fi.params]
                 cp = [p_.name for p_ in callee.params]
-                new_body = copy.deepcopy(callee.node.body)
+                new_body = copy.deepcopy(callee.real_body())
                 ren = {a: b for a, b in zip(cp, own) if a != b}
                 if ren:
                     # parameter names differ: rename (only when the new names do not clash with the callee's locals)
